@@ -319,6 +319,10 @@ fn check_effect(region: &str, reqs: &[(u8, Vec<u8>)], before: &crate::oracle::Sn
             if f != 0 && (drr >> 4) < (drr & 0x0f) && a & 2 != 0 {
                 return Err("newchannel-inverted-dr-range-not-rejected".into());
             }
+            // a range that contains a data rate RP002 leaves RFU for the region is unambiguously invalid
+            if f != 0 && (drr >> 4) >= (drr & 0x0f) && ((drr & 0x0f)..=(drr >> 4)).any(|d| dr_rfu(region, d) || d == 15) && a & 2 != 0 {
+                return Err(format!("newchannel-dr-range-{:02x}-with-undefined-rate-not-rejected", drr));
+            }
         }
         0x0a if !fixed => {
             if answers.len() != 1 || answers[0].0 != 0x0a {
@@ -452,7 +456,7 @@ pub fn run(tier: &str, seed: u64, dir: &str) {
         // 5. NewChannelReq / DlChannelReq: index x frequency classes x DR ranges
         for idx in (0..=17u8).chain([31, 64, 128, 255]) {
             for &f in &freqs {
-                for drr in [0x50u8, 0x00, 0x55, 0x05, 0x70, 0xf0, 0x21, 0xee, 0x60] {
+                for drr in [0x50u8, 0x00, 0x55, 0x05, 0x70, 0xf0, 0x21, 0xee, 0x60, 0x80, 0xc5, 0xe0, 0x88, 0xd3] {
                     if !thorough && rng.below(10) != 0 {
                         continue;
                     }
